@@ -22,10 +22,13 @@ CONSTANTS
   Dev_PossiblySentIsNotSent = FALSE
   Dev_CaseFoldMethod = FALSE
   Dev_NoRecvTimeout = FALSE
+  Dev_ClampedBodyRead = FALSE
+  Dev_IdleBytesKept = FALSE
 INVARIANT AtMostOnce
 INVARIANT AttemptBound
 INVARIANT FramingNotRetried
 INVARIANT NoReuse
+INVARIANT OwnResponse
 INVARIANT LeaseExclusive
 INVARIANT NoStuck
 CHECK_DEADLOCK FALSE
